@@ -75,6 +75,20 @@ Theorem C15_select_min :
 Proof. exact C15_select_min_proof. Qed.
 Print Assumptions C15_select_min.
 
+(* C15_select_complete: under random and the three min policies, after every history, `no alive node` is
+   reported IF AND ONLY IF every type tried in the documented order - the requested type, for data-UDP then
+   DNS-UDP and TCP of the same family, and when the caller is not strict the same chain of the other IP
+   family - has no non-excluded alive node (and the one-node last resort does not apply).  `tried`, `cands`
+   are the spec's (C15_Spec.v): tried t strict = chain t, or chain t ++ chain (flip_t t). *)
+Theorem C15_select_complete :
+  forall (c : cfg) (p0 : gpol) (h : list op) (rq : reqtype) (strict : bool) (excl : option nat) (p : spol),
+    c_n c <> O -> g_policy (run c p0 h) = GSet p ->
+    ((exists l, In (RErr ENoAlive l) (results_of (select c (run c p0 h) rq strict excl))) <->
+     ((forall t', In t' (tried (key_of rq) strict) -> cands excl (ss_views (spec_run c p0 h) t') = []) /\
+      Nat.eqb (c_n c) 1 && strict = false)).
+Proof. exact C15_select_complete_proof. Qed.
+Print Assumptions C15_select_complete.
+
 (* the standing choice (minLatency.dialer) of every type is an alive node, and exists whenever a node is alive *)
 Theorem C15_best_is_alive :
   forall (c : cfg) (p0 : gpol) (h : list op) (m : mpol) (sets : ntype -> aset) (t : ntype),
